@@ -564,8 +564,8 @@ fn program_case(src: &str, input: &V, all_points: bool, r: &mut Rng, acc: &mut A
 }
 
 pub fn run(ctx: &Ctx) -> (Acc, String, bool) {
-    let graphs: u64 = ctx.pick(40_000, 3_000_000);
-    let programs: u64 = ctx.pick(3_000, 200_000);
+    let graphs: u64 = ctx.pick(200_000, 12_000_000);
+    let programs: u64 = ctx.pick(10_000, 800_000);
     let ins = inputs();
     let seed = ctx.seed;
     let cfg = GenCfg::default();
